@@ -152,6 +152,11 @@ class ImmutableDict(Mapping[Any, Any]):
 
         return self._hash
 
+    def __reduce__(self) -> tuple[Any, ...]:
+        """Pickle as constructor arguments so that the cached hash is recomputed by the interpreter that loads it."""
+
+        return (self.__class__, (self._d,))
+
     def __repr__(self) -> str:  # pragma: no cover
         """Representation."""
 
